@@ -30,7 +30,7 @@ RIGHT_KINDS = ["polygon", "multipolygon", "line", "multiline", "point", "multipo
 
 
 def shards(tier, seed):
-    n = 40 if tier == "quick" else 700
+    n = 80 if tier == "quick" else 900
     subs = [("float64", "float64")] + ([("int32", "float64"), ("float64", "int32")] if tier == "thorough"
                                         else [[("int32", "float64")], [("float64", "int16")],
                                               [("float32", "float32")]][seed % 3])
